@@ -145,7 +145,7 @@ func (ca *CertificateAuthority) PrimarySigningKeyVersion(ctx context.Context) (s
 }
 
 // Finalize persists the changes to the CA represented by the given mutation.
-func (ca *CertificateAuthority) Finalize(ctx context.Context, m styp.CertificateAuthorityMutation) error {
+func (ca *CertificateAuthority) Finalize(ctx context.Context, m styp.CertificateAuthorityMutation) (err error) {
 	mut, ok := m.(*certificateAuthorityMutation)
 	if !ok {
 		return fmt.Errorf("expected gcsca mutation object, got %v", m)
@@ -154,6 +154,13 @@ func (ca *CertificateAuthority) Finalize(ctx context.Context, m styp.Certificate
 	if err != nil {
 		return err
 	}
+	// The cached manifest is edited in place below. If persisting the change fails, the cache no
+	// longer reflects what is stored, so drop it and let the next use read storage again.
+	defer func() {
+		if err != nil {
+			ca.Flush()
+		}
+	}()
 	var manifestChanges bool
 	if mut.primaryRootVersion != nil && manifest.PrimaryRootKeyVersionName != *mut.primaryRootVersion {
 		manifestChanges = true
